@@ -285,7 +285,7 @@ def _real_values(d, rng, shape):
 
 
 def _build_mesh(d):
-    """-> (mesh handed to the package, flat float64 values the oracle reads, stored layout)"""
+    """-> (mesh handed to the package, flat float64 values the oracle reads, stored layout, tolerance scales or None)"""
     n = d['n']
     kz = n // 2 + 1
     rng = np.random.Generator(np.random.PCG64(int(d['seed'])))
@@ -307,13 +307,18 @@ def _build_mesh(d):
         a = f1.astype(np.complex128)
         if f2 is None:
             vals = a.real**2 + a.imag**2
+            scal = vals
         else:
             b = f2.astype(np.complex128)
             vals = a.real * b.real + a.imag * b.imag  # Re(conj(a) b)
-        return (f1, f2), (vals * float(d['L']) ** 3).ravel(), 'half'
+            # the package forms this in the field's precision: its rounding error scales with |a||b|, not with the
+            # (possibly cancelling) real part
+            scal = np.abs(a.real * b.real) + np.abs(a.imag * b.imag)
+        L3 = float(d['L']) ** 3
+        return (f1, f2), (vals * L3).ravel(), 'half', (scal * L3).ravel()
     half = _real_values(d, rng, (n, n, kz)).astype(dt)
     if d['fourier']:
-        return half, half.astype(np.float64).ravel(), 'half'
+        return half, half.astype(np.float64).ravel(), 'half', None
     # configuration space: a point-symmetric real (n, n, n) mesh (Xi(-r) = Xi(r))
     h64 = half.astype(np.float64)
     inv = (-np.arange(n)) % n
@@ -324,7 +329,7 @@ def _build_mesh(d):
     for k in {0, n // 2} if n % 2 == 0 else {0}:
         full[:, :, k] = 0.5 * (full[:, :, k] + full[inv][:, inv][:, :, k])
     full = np.ascontiguousarray(full.astype(dt))
-    return full, full.astype(np.float64).ravel(), 'full'
+    return full, full.astype(np.float64).ravel(), 'full', None
 
 
 def _edges(d):
@@ -396,11 +401,11 @@ def _judge_means(ref, counts, got, expected_sum, abs_sum, what):
     return None
 
 
-def _judge_kmu(d, model, values, ke_sq, mu_sq, out):
+def _judge_kmu(d, model, values, ke_sq, mu_sq, out, scales=None):
     """Compare one bin_kmu-style result with the enumerator under `model`.
     -> None | (kind in {'shape','count:total','count:misplaced','mean','kavg','pole'}, detail)"""
     poles = list(d['poles'])
-    ref = modes.kmu_reference(model, values, ke_sq, mu_sq, poles, _kunit(d))
+    ref = modes.kmu_reference(model, values, ke_sq, mu_sq, poles, _kunit(d), scales)
     power, counts, pl, counts_p, kavg = out
     c = _judge_counts(d['api'], ref, counts, counts_p)
     if c is not None:
@@ -453,19 +458,23 @@ def _variants(d, stored, kedges):
         par.append((SIG_ODDFOLD, dict(nyq=1, oddfold=True)))
     out = [([s], _half(n, stored, kw['nyq'], kw['oddfold'])) for s, kw in par]
     if d['api'] == 'kppi':
-        last32 = (np.float32 if d["prec"] == "f4" else np.float64)((kedges[-1] / _kunit(d)) ** 2)
+        last = float((kedges[-1] * _inv_kunit(d)) ** 2)
+        tie = modes.TIE_ULPS * modes.EPS32 * last
+        kz = n // 2 + 1
 
-        def early(m):
-            kz = n // 2 + 1
-            kp = m.kp2.reshape(n, n, kz)[:, :, 0]
-            over = kp.astype(np.float64) >= float(last32)
+        def early(m, thr):
+            # the j loop is left at the first j whose k_perp^2 reaches the last edge; everything behind it is lost
+            kp = m.kp2.reshape(n, n, kz)[:, :, 0].astype(np.float64)
+            over = kp >= thr
             jstar = np.where(over.any(axis=1), over.argmax(axis=1), n)
             keep = (np.arange(n)[None, :] < jstar[:, None])[:, :, None] & np.ones((1, 1, kz), dtype=bool)
             return modes.restrict(m, keep.ravel(), m.name + '+earlybreak')
 
-        out.append(([SIG_EARLYBREAK], early(_half(n, stored, 1, False))))
-        for s, kw in par:
-            out.append(([SIG_EARLYBREAK, s], early(_half(n, stored, kw['nyq'], kw['oddfold']))))
+        # a column exactly on the last edge may or may not trigger the break: both directions
+        for thr in (last - tie, last + tie) if tie > 0 else (last,):
+            out.append(([SIG_EARLYBREAK], early(_half(n, stored, 1, False), thr)))
+            for s, kw in par:
+                out.append(([SIG_EARLYBREAK, s], early(_half(n, stored, kw['nyq'], kw['oddfold']), thr)))
     return out
 
 
@@ -473,9 +482,9 @@ _PRIORITY = [SIG_ODDFOLD, SIG_EARLYBREAK, SIG_NYQ]
 
 
 def _attribute(d, judge, stored, kedges, kind, detail):
-    """A count mismatch against the statement: find out whether a known wrong convention explains it."""
+    """A mismatch against the statement: does a known wrong convention reproduce the observed result completely?
+    Always raises."""
     api = d['api']
-    generic = '%s-mode-count-%s' % ('kppi' if api == 'kppi' else 'kmu', kind.split(':')[1])
     other = None
     explains = []
     for sigs, model in _variants(d, stored, kedges):
@@ -490,13 +499,16 @@ def _attribute(d, judge, stored, kedges, kind, detail):
         sig = [s for s in _PRIORITY if any(s in x for x in best)][0]
         raise Violation(
             sig,
-            '%s [api=%s n=%d fourier=%s; observed table is reproduced exactly by the enumerator with: %s]'
+            '%s [api=%s n=%d fourier=%s; the observed result is reproduced completely by the enumerator with: %s]'
             % (detail, api, d['n'], d['fourier'], ' | or: '.join(' + '.join(x) for x in explains)),
         )
+    tail = ' [api=%s n=%d fourier=%s]' % (api, d['n'], d['fourier'])
+    if not kind.startswith('count'):
+        raise Violation('%s-%s-wrong' % (api, kind), detail + tail)
     if other is not None:
         k2, det2, sigs = other
-        raise Violation('%s-%s-wrong' % (api, k2), '%s [counts follow the wrong convention %s; on top of that]' % (det2, '+'.join(sigs)))
-    raise Violation(generic, '%s [api=%s n=%d fourier=%s]' % (detail, api, d['n'], d['fourier']))
+        raise Violation('%s-%s-wrong' % (api, k2), '%s [counts follow the wrong convention %s; on top of that]%s' % (det2, '+'.join(sigs), tail))
+    raise Violation('%s-mode-count-%s' % ('kppi' if api == 'kppi' else 'kmu', kind.split(':')[1]), detail + tail)
 
 
 def _shape_check(d, out, nk, ny):
@@ -553,6 +565,26 @@ def _kppi_unsafe(d):
     return float(h * h) > d['pimax_q'] * (1.0 - 8 * modes.EPS32)
 
 
+_d6_probe = {}
+
+
+def _tree_reads_past_piedges(ps):
+    """Once per process: does bin_kppi search the pi edges before the range test (D6)?  Decided on a tiny
+    canonical input with the pure-Python twin, where numpy raises IndexError instead of reading out of bounds."""
+    if 'v' not in _d6_probe:
+        dk = 2.0 * np.pi
+        try:
+            ps.bin_kppi.py_func(2, 1.0, dk * np.array([0.0, 3.0]), dk * np.sqrt(0.5), 1, np.ones((2, 2, 2), np.float32), np.float32, True, 1)
+            _d6_probe['v'] = False
+        except IndexError:
+            _d6_probe['v'] = True
+    return _d6_probe['v']
+
+
+class _Skip(Exception):
+    pass
+
+
 def _call_kppi(d, ps, n, L, kedges, pimax, mesh, fdt, nthread):
     args = (n, L, kedges, pimax, int(d['npi']), mesh, fdt, bool(d['fourier']), int(nthread))
     unsafe = _kppi_unsafe(d)
@@ -563,11 +595,15 @@ def _call_kppi(d, ps, n, L, kedges, pimax, mesh, fdt, nthread):
             ps.bin_kppi.py_func(*args)
         except IndexError as e:
             raise Violation(SIG_OOB, 'bin_kppi(py_func) n=%d pimax^2=%g mode units < largest kz^2=%d: %s' % (n, d['pimax_q'], (n // 2) ** 2, e))
+        if _tree_reads_past_piedges(ps):
+            # pimax within rounding of the largest kz: the twin stayed in bounds, but the compiled (fastmath) edges may
+            # differ in the last bit and the unguarded search could then read past the array -- not executed here
+            raise _Skip('kppi-compiled-call-skipped:pimax-tie-with-unguarded-pi-search')
     try:
         return ps.bin_kppi(*args)
     except (IndexError, SystemError) as e:
         if unsafe:
-            raise Violation(SIG_OOB, 'bin_kppi under NUMBA_BOUNDSCHECK n=%d pimax^2=%g mode units < largest kz^2=%d: %s: %s' % (n, d['pimax_q'], (n // 2) ** 2, type(e).__name__, e))
+            raise Violation(SIG_OOB, 'bin_kppi under NUMBA_BOUNDSCHECK n=%d pimax^2=%g mode units <= largest kz^2=%d: %s: %s' % (n, d['pimax_q'], (n // 2) ** 2, type(e).__name__, e))
         raise Violation('raised:%s:bin_kppi' % type(e).__name__, str(e)[:500])
     except Exception as e:
         raise Violation('raised:%s:bin_kppi' % type(e).__name__, str(e)[:500])
@@ -662,7 +698,7 @@ def run_case(d):
     if max(d['nthread'], d['nthread2']) > maxthr or min(d['nthread'], d['nthread2']) < 1:
         raise Reject('nthread above NUMBA_NUM_THREADS')
     api, n = d['api'], d['n']
-    mesh, values, stored = _build_mesh(d)
+    mesh, values, stored, scales = _build_mesh(d)
     kedges, ke_sq = _edges(d)
     nk = len(ke_sq) - 1
 
@@ -677,8 +713,11 @@ def run_case(d):
 
     mesh_copy = tuple(None if m is None else m.copy() for m in mesh) if isinstance(mesh, tuple) else mesh.copy()
     kedges_copy = kedges.copy()
-    outA = _call(d, ps, mesh, kedges, d['nthread'])
-    outB = _call(d, ps, mesh, kedges, d['nthread2'])
+    try:
+        outA = _call(d, ps, mesh, kedges, d['nthread'])
+        outB = _call(d, ps, mesh, kedges, d['nthread2'])
+    except _Skip as e:
+        return dict(classes=[str(e)], nontrivial=False)
     # inputs must not be modified
     same = all((a is None and b is None) or np.array_equal(a, b) for a, b in zip(mesh, mesh_copy)) if isinstance(mesh, tuple) else np.array_equal(mesh, mesh_copy)
     if not same or not np.array_equal(kedges, kedges_copy):
@@ -715,16 +754,13 @@ def run_case(d):
         else:
 
             def judge(model, out=out):
-                return _judge_kmu(d, model, values, ke_sq, y_sq, out)
+                return _judge_kmu(d, model, values, ke_sq, y_sq, out, scales)
 
         kind, detail, ref = judge(primary)
         ref0 = ref
         if kind is None:
             continue
-        detail = '%s [nthread=%d]' % (detail, nt)
-        if kind.startswith('count'):
-            _attribute(d, judge, stored, kedges, kind, detail)
-        raise Violation('%s-%s-wrong' % (api, kind), '%s [api=%s n=%d fourier=%s]' % (detail, api, n, d['fourier']))
+        _attribute(d, judge, stored, kedges, kind, '%s [nthread=%d]' % (detail, nt))
 
     extra = []
     if ref0.n_ties:
